@@ -28,8 +28,9 @@ def loading_frame_faults(ctx):
     f = fl.fields(clean)
     data = open(path, "rb").read()
     first = fl.cs_to_file_offset(data, int(f["offs"].split(",")[0]))
-    c11.faulted_attempts(ctx, "fixture", "fixture", clean, data, {"file": path}, ctx.quick,
-                         slicer=lambda a, b: f"pushf:{path}:{a}:{b}", n_scripts=20 if ctx.quick else 200, cut_lo=first)
+    bad = 0 if c11.faulted_attempts(ctx, "fixture", "fixture", clean, data, {"file": path}, ctx.quick,
+                                    slicer=lambda a, b: f"pushf:{path}:{a}:{b}", n_scripts=20 if ctx.quick else 200,
+                                    cut_lo=first) else 1
     # encoder streams: single- and multi-frame, single-section frames (the AllGroupOffsets cache)
     import hashlib
     plans = fl.gen_plans(ctx.rng, 14 if ctx.quick else 150, 10 if ctx.quick else 100, 0)
@@ -38,8 +39,12 @@ def loading_frame_faults(ctx):
         clean = (run_lines_robust([fl.H(ctx)], [f"script push:{hexs} finish"])[0] or "crash").split(" | ")[-1]
         if not fl.is_clean_ok(clean):
             continue
-        c11.faulted_attempts(ctx, kind, hashlib.sha1(cs).hexdigest()[:12], clean, cs,
-                             {"kind": kind, "stream_hex": hexs, "plan": line[:3000]}, ctx.quick, n_scripts=8 if ctx.quick else 30)
+        if bad >= 3:
+            ctx.notes["loading_frame_faults_stopped_early"] = "three streams already showed a violation (hangs cost their deadline each)"
+            break
+        if not c11.faulted_attempts(ctx, kind, hashlib.sha1(cs).hexdigest()[:12], clean, cs,
+                                    {"kind": kind, "stream_hex": hexs, "plan": line[:3000]}, ctx.quick, n_scripts=8 if ctx.quick else 30):
+            bad += 1
 
 
 def run(ctx):
